@@ -73,6 +73,19 @@ theorem C02_work_8966 (b : Bytes) (hb : b.length ≤ 8966) :
   calc (parse b).st.reads ≤ b.length * (parse b).st.acts := h3
     _ ≤ 8966 * 3470100 := Nat.mul_le_mul hb (by omega)
 
+/-- **The other loop.**  `_read_bitmap` (the only loop besides the name decoder and the two section loops
+that a datagram can drive) finishes within `len + 1` iterations per call, wherever it starts and whatever
+`end` is: the model's loop carries that many units of fuel and never runs out of them (running out is the
+`.other` pseudo-exception).  It is called at most once per `_read_name` (after the NSEC next-name), so
+a datagram of `n` bytes causes at most `(n + 1) · (3n + 2)` window iterations, each over ≤ 255 bitmap
+bytes.  (No counter for this loop is carried in `Run.st`; on the implementation the wall-clock watchdog
+of the harness is the only guard for it — see notes/agents/C02.md, review finding F5.) -/
+theorem C02_bitmap_loop_bounded (b : Bytes) (end_ : Nat) (st : St) :
+    (readBitmap b end_ (b.length + 1) st).2 ≠ .error .other := by
+  intro h
+  have := (readBitmap_spec b end_ (b.length + 1) st (by omega)).2.1 _ h
+  simp [Benign] at this
+
 /-- **Short names.** Every name on the returned object — question names, owner names, PTR/CNAME
 targets, SRV targets, NSEC next names — is at most 253 characters long (valid or not). -/
 theorem C02_names_short (b : Bytes) (p : Parsed) (h : (parse b).parsed? = some p) : namesShort p = true :=
